@@ -419,6 +419,7 @@ class Domain:
             res = deque()
             res.appendleft(left_index)
             res.appendleft(right_index)
+            self.max_state_index = max(left_index, right_index)
             return res
 
         # exhaust all possible states and
@@ -432,6 +433,7 @@ class Domain:
         # than storing all the states (tuples of ints)
         origin_coordinate = self.grid.origin_coordinate
         pairing = self.pairing
+        self.max_state_index = -1
 
         # find the frontier states:
         axes = self.grid.axes
@@ -456,6 +458,11 @@ class Domain:
                 all_states.append(pairing.pair(state_increment))
 
             if not all(outside_states):
+                # the largest index of a column is not always at one of its ends (Rosenberg-Strong in 3d)
+                self.max_state_index = max(
+                    self.max_state_index,
+                    max(x for x, y in zip(all_states, outside_states) if not y),
+                )
                 frontier_left_index = next(
                     x for x, y in zip(all_states, outside_states) if not y
                 )
@@ -484,7 +491,9 @@ class StatesManager:
         """
         frontier_states = domain.compute_total_number_of_states_and_frontier()
         self.frontier_states_indices = frontier_states
-        self.max_frontier_indices = max(frontier_states)
+        self.max_frontier_indices = max(
+            max(frontier_states), getattr(domain, "max_state_index", -1)
+        )
         self.domain = domain
         self.origin_coordinates = grid.origin_coordinate
         self.grid = grid
